@@ -15,7 +15,12 @@ Inductive seen_t :=
 (* the executor runs on miniredis: expiry_inclusive = true *)
 Inductive case :=
 | CPeriod (cfg : pcfg) (base_ms : Z) (ops : list pop) (obs : list pobs)
-| CToken (rt bs : Z) (kt kts : bulk) (base_ms : Z) (ninst : nat) (ops : list top) (obs : list seen_t).
+| CToken (rt bs : Z) (kt kts : bulk) (base_ms : Z) (ninst : nat) (ops : list top) (obs : list seen_t)
+| CBoth (a b : case).
+      (* limiters on DIFFERENT keys (each with its own rate / burst) driven on one store in one
+         history: every key's limiters with the part of the history that concerns them (their own
+         calls, the clock, outages).  Limiters on other keys must not interfere: the script touches
+         its two keys only (Props.token_script_refines_bucket, frame clause) and token_keys_distinct. *)
 
 (* the circuit breaker of go-zero's redis client is not modelled; its decision is the oracle
    [brk] of an op, read off the error class.  It is ACCEPTED only where the real breaker can
@@ -77,10 +82,11 @@ Fixpoint tagree (c : tcfg) (s : tstate) (ops : list top) (obs : list seen_t) : b
   | _, _ => false
   end.
 
-Definition agrees (c : case) : bool :=
+Fixpoint agrees (c : case) : bool :=
   match c with
   | CPeriod cfg base ops obs => list_eqb pobs_eqb (prun cfg (pinit true base) ops) obs && pbrk_ok 0 ops obs
   | CToken rt bs kt kts base n ops obs => tagree (mkCfg rt bs kt kts) (tinit true base n) ops obs && tbrk_ok 0 ops obs
+  | CBoth a b => agrees a && agrees b
   end.
 
 (* ------------------------------------------------------------------ the property *)
@@ -167,8 +173,9 @@ Fixpoint token_walk (rt bs : Z) (b : bucket) (down : bool) (ops : list top) (obs
 Definition calls_of (i : nat) (acc : list (nat * (Z * Z * bool))) : list (Z * Z * bool) :=
   map snd (filter (fun x => Nat.eqb (fst x) i) acc).
 
-Definition prop_ok (c : case) : bool :=
+Fixpoint prop_ok (c : case) : bool :=
   match c with
+  | CBoth a b => prop_ok a && prop_ok b
   | CPeriod cfg base ops obs =>
     if (1 <=? pperiod cfg) && forallb pop_wf ops
     then list_eqb pobs_eqb (sp_prun cfg (sp_pinit true base) ops) obs
@@ -180,8 +187,9 @@ Definition prop_ok (c : case) : bool :=
     else true
   end.
 
-Definition model_obs (c : case) :=
+Fixpoint model_obs (c : case) : list pobs * list tobs :=
   match c with
   | CPeriod cfg base ops obs => (prun cfg (pinit true base) ops, [])
   | CToken rt bs kt kts base n ops obs => ([], trun (mkCfg rt bs kt kts) (tinit true base n) ops)
+  | CBoth a b => (fst (model_obs a) ++ fst (model_obs b), snd (model_obs a) ++ snd (model_obs b))
   end.
